@@ -170,6 +170,16 @@ def audit(prop: str, props_modules: list[str]) -> dict:
             res["discharged"] += 1
     if hits:
         res["discharged"] = 0
+    if os.environ.get("VERIF_TIER_ACTIVE") == "thorough" and not res["failures"]:
+        # independent re-check of the compiled property modules (and everything they import) by the toolchain's
+        # stand-alone checker: replays every declaration through the kernel, outside `lean` itself
+        try:
+            ok2, out2 = leanchecker(props_modules)
+            res["leanchecker"] = {"ok": ok2, "modules": props_modules, "tail": out2[-300:]}
+            if not ok2:
+                res["failures"].append({"kind": "leanchecker", "modules": props_modules, "errors": [out2[-600:]]})
+        except subprocess.TimeoutExpired:
+            res["leanchecker"] = {"ok": None, "note": "timed out; not counted"}
     res["wall_s"] = time.time() - t0
     return res
 
